@@ -79,7 +79,7 @@ func (n *CocagoParser) IdentAnalysis(code string, fileName string) *core_domain.
 }
 
 func (n *CocagoParser) Visitor(f *ast.File, fset *token.FileSet, fileName string) *core_domain.CodeContainer {
-	var currentStruct core_domain.CodeDataStruct
+	var currentStruct *core_domain.CodeDataStruct
 	var currentFile core_domain.CodeContainer
 	var currentFunc *core_domain.CodeFunction
 	var dsMap = make(map[string]*core_domain.CodeDataStruct)
@@ -112,18 +112,20 @@ func (n *CocagoParser) Visitor(f *ast.File, fset *token.FileSet, fileName string
 				currentFile.Fields = append(currentFile.Fields, field)
 			}
 		case *ast.TypeSpec:
-			currentStruct = core_domain.CodeDataStruct{}
-			currentStruct.NodeName = x.Name.Name
+			// every type declaration owns its data struct (a method may have been seen before its receiver type)
+			currentStruct = getDataStruct(dsMap, x.Name.Name)
 			currentStruct.Package = currentFile.PackageName
 			//currentStruct.FilePath = BuildImportName(fileName)
-			dsMap[currentStruct.NodeName] = &currentStruct
 		case *ast.StructType:
-			AddStructType(currentStruct.NodeName, x, &currentFile, dsMap)
+			if currentStruct != nil {
+				AddStructType(currentStruct.NodeName, x, &currentFile, dsMap)
+			}
 		case *ast.FuncDecl:
 			funcType = "FuncDecl"
 			currentFunc, recv := AddFunctionDecl(x, &currentFile)
 			if recv != "" {
-				dsMap[recv].Functions = append(dsMap[recv].Functions, *currentFunc)
+				ds := getDataStruct(dsMap, recv)
+				ds.Functions = append(ds.Functions, *currentFunc)
 			}
 		case *ast.FuncType:
 			if funcType != "FuncDecl" {
@@ -153,6 +155,16 @@ func (n *CocagoParser) Visitor(f *ast.File, fset *token.FileSet, fileName string
 	SortInterface(currentFile.DataStructures)
 
 	return &currentFile
+}
+
+// getDataStruct returns the data struct registered under name and registers a new one on first use
+func getDataStruct(dsMap map[string]*core_domain.CodeDataStruct, name string) *core_domain.CodeDataStruct {
+	if ds, ok := dsMap[name]; ok {
+		return ds
+	}
+	ds := &core_domain.CodeDataStruct{NodeName: name}
+	dsMap[name] = ds
+	return ds
 }
 
 func (n *CocagoParser) SetPackageManager(manager core_domain.CodePackageInfo) {
